@@ -166,6 +166,50 @@ def conforms_up_to_site_merging(spec, comp):
     return None
 
 
+def conforms_up_to_field_renaming(spec, comp):
+    """A private field of a combinator struct may be renamed (`parsers` -> `alts`, `is_context` -> `contextual`): the contract names
+    children and flags by field.  If a body does not conform, the field names that occur only in the code are mapped one-to-one onto
+    the field names that occur only in the contract (at most 3, every bijection tried) and the comparison is repeated."""
+    import itertools
+    rx = re.compile(r"\bself\.([A-Za-z_]\w*)")
+
+    def names(edges):
+        out = set()
+        for e in edges:
+            for txt in [e.src, e.dst] + list(e.effects) + ([e.pos] if isinstance(e.pos, str) else list(e.pos)) + [a for a, _ in e.facts]:
+                if isinstance(txt, str):
+                    out |= set(rx.findall(txt))
+        return out
+    ns, nc = names(spec), names(comp)
+    only_s, only_c = sorted(ns - nc), sorted(nc - ns)
+    if not only_c or len(only_s) != len(only_c) or len(only_c) > 3:
+        return None
+    for perm in itertools.permutations(only_s):
+        ren = dict(zip(only_c, perm))
+
+        def rn(txt):
+            return rx.sub(lambda m: "self." + ren.get(m.group(1), m.group(1)), txt) if isinstance(txt, str) else txt
+        comp2 = []
+        for e in comp:
+            e2 = C.Edge()
+            e2.src, e2.res, e2.dst = rn(e.src), e.res, rn(e.dst)
+            e2.pos = rn(e.pos) if isinstance(e.pos, str) else frozenset(rn(x) for x in e.pos)
+            e2.effects = tuple(rn(x) for x in e.effects)
+            e2.facts = frozenset((rn(a), p_) for a, p_ in e.facts)
+            e2.line = getattr(e, "line", None)
+            fs = getattr(e, "facts_sat", None)
+            e2.facts_sat = frozenset((rn(a), p_) for a, p_ in fs) if fs else fs
+            comp2.append(e2)
+        probs2, n2 = C.conforms(spec, comp2)
+        if probs2:
+            alt = conforms_up_to_site_order(spec, comp2) or conforms_up_to_site_merging(spec, comp2)
+            if alt is not None:
+                return alt
+            continue
+        return probs2, n2, comp2
+    return None
+
+
 def rule_contracts(prop, config="all", floor_key=None):
     run = RP.get_run(config)
     facts = run.facts
@@ -217,6 +261,11 @@ def rule_contracts(prop, config="all", floor_key=None):
                 if alt is not None:
                     probs, n, comp = alt
                     r.info.setdefault("compared_up_to_site_merging", []).append(u)
+                else:
+                    alt = conforms_up_to_field_renaming(spec, comp)
+                    if alt is not None:
+                        probs, n, comp = alt
+                        r.info.setdefault("compared_up_to_field_renaming", []).append(u)
         nedges += n
         r.obligations += n
         bad_keys = set()
